@@ -138,7 +138,9 @@ impl<Wr: Write> HtmlSerializer<Wr> {
                     "&nbsp;"
                 },
                 _ => {
-                    //  0xC2 not followed by 0xA0 (not NBSP), so keep looking.
+                    //  0xC2 not followed by 0xA0 (not NBSP): ordinary text. The byte was
+                    //  excluded from the slice written above, so write it and keep looking.
+                    self.writer.write_all(&bytes[next_special..search_start])?;
                     continue;
                 },
             };
